@@ -461,6 +461,11 @@ func main() {
 					if g.osugg != nil {
 						es = suggObs{Has: true, Text: g.osugg(o, s), From: s.BlockOff, To: s.BlockEnd}
 					}
+					if g.osuggOpt != nil {
+						if text, has := g.osuggOpt(o, s); has {
+							es = suggObs{Has: true, Text: text, From: s.BlockOff, To: s.BlockEnd}
+						}
+					}
 					gs := suggObs{}
 					if ok && r.HasSugg {
 						gs = suggObs{Has: true, Text: r.Sugg, From: r.SuggFrom, To: r.SuggTo}
